@@ -21,12 +21,31 @@ open OmplModel.RRTstar OmplModel.Driver
 
 abbrev Pt := List Float
 
+/-- the environment the harness plans in, for RECOMPUTING the `checkMotion` answers the script carries:
+`DiscreteMotionValidator::checkMotion(s1, s2)` on a RealVector space with box obstacles is
+`isValid(s2) && all j in 1..nd-1: isValid(interpolate(s1, s2, j/nd))`, `nd = validSegmentCount(s1, s2) =
+ceil(distance / longestValidSegment)` (count factor 1; the bisection order of the real code does not matter for
+the answer); a state is invalid iff it lies in a closed box. -/
+structure Val where
+  lvs : Float
+  boxes : List (List (Float × Float))
+
+def validPt (v : Val) (p : Pt) : Bool :=
+  !(v.boxes.any (fun b => (b.zip p).all (fun q => !(q.2 < q.1.1 || q.2 > q.1.2))))
+
+def dmvCheck (v : Val) (a b : Pt) : Bool :=
+  if !validPt v b then false
+  else
+    let nd := (Float.ceil (OmplModel.Soln.rvDist a b / v.lvs)).toUInt32.toNat
+    (List.range (nd - 1)).all (fun k => validPt v (OmplModel.Soln.rvInterp a b (Float.ofNat (k + 1) / Float.ofNat nd)))
+
 structure DSt where
   obj : Obj Pt Float
   sp : Space Pt Float
   dim : Nat
   st : St Pt Float Float
   prevN : Nat := 0
+  val : Option Val := none
 
 def kv (pre : String) (t : String) : Option String :=
   if t.startsWith pre then some (t.drop pre.length).toString else none
@@ -41,7 +60,17 @@ def mkObj (kind : String) (thr : Float) : Option (Obj Pt Float) :=
                      motionCost := OmplModel.Soln.mcWork 0.5 (OmplModel.Soln.field 1), symmetric := false, threshold := thr }
   | _ => none
 
-def init (ts : List String) : Option DSt :=
+def pairsOf : List Float → List (Float × Float)
+  | a :: b :: rest => (a, b) :: pairsOf rest
+  | _ => []
+
+def parseBoxes? (spec : String) : Option (List (List (Float × Float))) :=
+  if spec == "-" then some []
+  else (spec.splitOn "|").mapM (fun b => do
+    let xs ← (b.splitOn ",").mapM parseFloatBits?
+    pure (pairsOf xs))
+
+def initCore (ts : List String) : Option DSt :=
   match ts with
   | ["rrtstar", d, o, md, kr, gb, gt, th, g] => do
     let d ← (kv "dim=" d) >>= parseNat?
@@ -65,6 +94,16 @@ def init (ts : List String) : Option DSt :=
           dinf := 1.0 / 0.0 }
       pure { obj := obj, sp := sp, dim := d, st := St.init obj sp }
   | _ => none
+
+/-- header with (11 tokens) or without (9 tokens) the environment for the `checkMotion` recomputation. -/
+def init (ts : List String) : Option DSt :=
+  match ts with
+  | [a, d, o, md, kr, gb, gt, th, g, lv, bx] => do
+    let core ← initCore [a, d, o, md, kr, gb, gt, th, g]
+    let lvs ← (kv "lvs=" lv) >>= parseFloatBits?
+    let boxes ← (kv "boxes=" bx) >>= parseBoxes?
+    pure { core with val := some { lvs := lvs, boxes := boxes } }
+  | _ => initCore ts
 
 def C1 : UInt64 := 0x9E3779B97F4A7C15
 def C2 : UInt64 := 0xBF58476D1CE4E5B9
@@ -167,7 +206,11 @@ def step (d : DSt) (ts : List String) : DSt × String :=
   | ["it"] =>
     let d0 := { d with prevN := d.st.motions.size }
     let st := iterate d.obj d.sp d.st
-    ({ d0 with st := st }, digest d0 st)
+    -- the answers this pass consumed, checked against the model's own DiscreteMotionValidator
+    let cmx := match d.val with
+      | none => 0
+      | some v => ((st.queries.zip d.st.answers).filter (fun (qa : (Pt × Pt) × Bool) => dmvCheck v qa.1.1 qa.1.2 != qa.2)).length
+    ({ d0 with st := st }, digest d0 st ++ s!" cmx={cmx}")
   | ["rep"] =>
     match report d.obj d.st with
     | none => (d, "rep none")
